@@ -108,7 +108,9 @@ def handle (args : List String) : Option String :=
     let env : Env := { domain := domain, remote := remote, captured := if explicit then some .explicit else none,
                        conn := conn }
     let r := run cfg env st0 inp (4 * unitCount inp + 8)
-    pure (joinList (r.1.filterMap showEv) ++ " " ++ showOutcome r.2)
+    let adv := ((featuresAfter cfg env st0 inp (4 * unitCount inp + 8)).map (·.1)).eraseDups.mergeSort
+    let advS := if adv.isEmpty then "A-" else "A" ++ "+".intercalate (adv.map toString)
+    pure (joinList (r.1.filterMap showEv) ++ " " ++ showOutcome r.2 ++ " " ++ advS)
   | ["sni", explicit, ss] => do
     let e ← parseBool explicit
     let ss ← mapM? parseSess (splitList ss)
